@@ -199,7 +199,7 @@ def main(tier):
                 ff = {"main.jst": b64(apidoc.render(blocks)[0])}
                 ff.update({k: b64(v) for k, v in fs.items()})
                 add("include_graph", "ig%d_%s" % (n, nm), ff, dirs=dirs)
-            for nm, blocks, fs in c08.forms(m["doc"], m["tx"][0], rnd):
+            for nm, blocks, fs in [f[:3] for f in c08.forms(m["doc"], m["tx"][0], rnd)]:
                 ff = {"main.jst": b64(apidoc.render(blocks)[0])}
                 ff.update({k: b64(v) for k, v in fs.items()})
                 ff[rnd.choice(sorted(fs))] = b64("")        # one of the included files is empty
